@@ -331,6 +331,10 @@ def write_evidence(prop, tier, batch_seed, world, cls, agg, corpus_n, known_hit,
     ev = {"property_id": prop, "tier": tier, "seed": batch_seed, "level": "exploration", "coverage": cov,
           "assumptions": list(getattr(cls, "ASSUMPTIONS", [])), "wall_s": round(wall, 2), "violations": nviol}
     d = os.path.join(VERIF_DIR, "evidence")
+    if os.environ.get("VERIF_REPO", "/repo") != "/repo":
+        # a scratch tree is under test (sensitivity / seeded changes): never overwrite the
+        # evidence of the repository itself
+        d = os.path.join(os.environ["VERIF_REPO"], "_verif_evidence")
     os.makedirs(d, exist_ok=True)
     with open(os.path.join(d, prop + ".json"), "w") as f:
         json.dump(ev, f, indent=1, default=list)
